@@ -58,15 +58,15 @@ type hdesc struct {
 }
 
 type world struct {
-	rd      []rdesc
-	hd      []hdesc
-	routers []*vnet.Router
-	nets    []*vnet.Net
-	socks   []transport.UDPConn
-	shost   []int
-	sopen   []bool
-	lastSrc []*net.UDPAddr
-	laddr   []*net.UDPAddr
+	rd                     []rdesc
+	hd                     []hdesc
+	routers                []*vnet.Router
+	nets                   []*vnet.Net
+	socks                  []transport.UDPConn
+	shost                  []int
+	sopen                  []bool
+	lastSrc                []*net.UDPAddr
+	laddr                  []*net.UDPAddr
 	nread, viaNAT, intoLAN int
 }
 
@@ -92,7 +92,8 @@ func build(rd []rdesc, hd []hdesc) (*world, error) {
 			cfg.StaticIPs = append(cfg.StaticIPs, s)
 		}
 		if d.parent >= 0 {
-			nt := &vnet.NATType{MappingBehavior: vnet.EndpointDependencyType(d.mb), FilteringBehavior: vnet.EndpointDependencyType(d.fb), MappingLifeTime: d.life}
+			nt := &vnet.NATType{MappingBehavior: vnet.EndpointDependencyType(d.mb), FilteringBehavior: vnet.EndpointDependencyType(d.fb), MappingLifeTime: d.life,
+				Hairpinning: (d.mb+d.fb)%2 == 0} // documented as not implemented: must not change anything
 			if d.o2o {
 				nt.Mode = vnet.NATModeNAT1To1
 			}
@@ -633,6 +634,20 @@ func TestHarness(t *testing.T) {
 			t.Fatal(err)
 		}
 		for _, h := range hs {
+			if len(h.Conf) >= 2 && h.Conf[0] == "9" {
+				// replay of a concurrent history: same topology and flows (from the seed), fresh schedules, 20 times
+				conf := h.Conf
+				for rep := 0; rep < 20; rep++ {
+					r0 := common.Rng(common.AtoU64(conf[1]), 0x0d)
+					rd, hd := genTopo(r0)
+					r2 := common.Rng(common.AtoU64(conf[1]), 0x0c)
+					h2 := &common.History{}
+					synctest.Test(t, func(*testing.T) { runConc(h2, r2, rd, hd) })
+					h2.Conf = conf
+					w.Put(h2)
+				}
+				continue
+			}
 			rd, hd := parseConf(h.Conf)
 			synctest.Test(t, func(*testing.T) { runHistory(h, nil, rd, hd) })
 			w.Put(h)
@@ -641,8 +656,17 @@ func TestHarness(t *testing.T) {
 		rng := common.Rng(a.Seed, 0x01)
 		for i := 0; i < a.N; i++ {
 			h := &common.History{}
-			rd, hd := genTopo(rng)
-			synctest.Test(t, func(*testing.T) { runHistory(h, rng, rd, hd) })
+			if a.Mode == "conc" {
+				// concurrent tier: conf = 9, seed, history index; the schedule is the Go runtime's
+				seed := rng.Uint64()
+				rd, hd := genTopo(common.Rng(seed, 0x0d))
+				r2 := common.Rng(seed, 0x0c)
+				synctest.Test(t, func(*testing.T) { runConc(h, r2, rd, hd) })
+				h.Conf = []string{"9", common.I(seed), common.I(i)}
+			} else {
+				rd, hd := genTopo(rng)
+				synctest.Test(t, func(*testing.T) { runHistory(h, rng, rd, hd) })
+			}
 			w.Put(h)
 		}
 	}
